@@ -215,6 +215,80 @@ class Schedules(Space):
                   sample={'tables': [len(g) for g in got]} if order != sorted(order) else None)
 
 
+def big_rows(kind):
+    """(sigs, fs, f_range): 'many' = 12 short rows; 'large' = 16 rows of 8200 samples cut from a long recording (1.05 MB)."""
+    if kind == 'many':
+        ws = [WORDS[i % 5][i % 3:] + WORDS[i % 5][:i % 3] for i in range(12)]
+        return np.array([S.word_signal(w) * (1. + i) for i, w in enumerate(ws)]), 64, (6, 14)
+    x = S.long_signal('@B')
+    return np.array([x[i * 4000:i * 4000 + 8200] for i in range(16)]), 1000, (13, 30)
+
+
+def data_threshold(df, side):
+    """A threshold ONE floating-point step below / above the amp_consistency of a bursting cycle whose value has many decimals:
+    any rounding of the thresholds on the way to the workers flips that cycle's label for one of the two sides."""
+    for i in np.flatnonzero(df['is_burst'].to_numpy()):
+        v = float(df['amp_consistency'].iloc[i])
+        if v == v and .5 < v < 1 and abs(round(v, 6) - v) > 1e-9:
+            return float(np.nextafter(v, -1.0 if side == 'below' else 2.0))
+    return None
+
+
+def eval_big(case):
+    """MORE THAN TEN rows (position labels with two digits), arrays larger than 1 MB, per-row option lists, thresholds taken from the
+    data: every table (and every model) against the per-signal analysis of its own row.  One worker (identity schedule)."""
+    from bycycle.features import compute_features
+    from bycycle.group import compute_features_2d
+    from bycycle import BycycleGroup
+    kind, entry, optkind = case
+    sigs, fs, fr = big_rows(kind)
+    n = len(sigs)
+    base = {'center_extrema': 'trough', 'threshold_kwargs': dict(S.T0)}
+    if optkind.startswith('data'):
+        t0 = compute_features(sigs[0].copy(), fs, fr, **copy.deepcopy(base))
+        thr = data_threshold(t0, optkind[5:])
+        if thr is None:
+            return SKIP('no suitable cycle for a data-derived threshold')
+        base['threshold_kwargs']['amp_consistency_threshold'] = thr
+    if optkind == 'list':
+        rows = row_options('list', 5, True)
+        opts = [copy.deepcopy(rows[i % 5]) for i in range(n)]
+    else:
+        opts = base
+    ref = []
+    for i in range(n):
+        o = copy.deepcopy(opts[i] if isinstance(opts, list) else opts)
+        o.pop('return_samples', None)
+        ref.append(compute_features(sigs[i].copy(), fs, fr, return_samples=True, **o))
+    sgn = {'entry': entry, 'rows': n, 'options': optkind, 'big': kind}
+    obj = None
+    try:
+        with sched.patched_pool(None), contextlib.redirect_stdout(io.StringIO()):
+            if entry == '2d':
+                got = compute_features_2d(sigs.copy(), fs, fr, compute_features_kwargs=copy.deepcopy(opts), axis=0, return_samples=True, n_jobs=1)
+            else:
+                bg = BycycleGroup(center_extrema='trough', thresholds=dict(base['threshold_kwargs']))
+                bg.fit(sigs.copy(), fs, fr, axis=0, n_jobs=1)
+                got, obj = bg.df_features, bg
+    except Exception as e:      # noqa
+        return VIOL(dict(sgn, kind='raise', exc=type(e).__name__), 'group analysis raised %s: %s' % (type(e).__name__, str(e)[:150]))
+    if not isinstance(got, list) or len(got) != n:
+        return VIOL(dict(sgn, kind='length'), 'result is not a list of %d tables' % n)
+    for i in range(n):
+        dd = diff_tables(got[i], ref[i])
+        if dd:
+            where = [j for j in range(n) if diff_tables(got[i], ref[j]) is None]
+            return VIOL(dict(sgn, kind='position'), 'entry %d is not the per-signal analysis of row %d with its options (%s); it equals the analysis '
+                        'of row(s) %s' % (i, i, dd, where))
+    if obj is not None:
+        if len(obj.models) != n:
+            return VIOL(dict(sgn, kind='models'), 'BycycleGroup.models has the wrong length')
+        for i in range(n):
+            if diff_tables(obj.models[i].df_features, ref[i]) or not np.array_equal(obj.models[i].sig, sigs[i]):
+                return VIOL(dict(sgn, kind='models'), 'BycycleGroup.models[%d] does not mirror row %d' % (i, i))
+    return OK(outcome=(kind, entry, optkind), nontrivial=True, evals=n)
+
+
 def prepare_model(pairs):
     with ThreadPoolExecutor(8) as tp:
         for k, v in zip(pairs, tp.map(lambda p: sched.model_orders(*p), pairs)):
@@ -225,7 +299,11 @@ def spaces(tier, seed):
     cfgs = configs(tier)
     pairs = sorted({(c[0], eff_workers(c[3], c[0])) for c in cfgs})
     prepare_model(pairs)
-    return [Schedules(tier)]
+    from bcmc.explore import ListSpace
+    big = [[k, e, o] for k in ('many', 'large') for e, os_ in (('2d', ('dict', 'list')), ('group', ('dict', 'data-below', 'data-above'))) for o in os_]
+    return [Schedules(tier), ListSpace('big-groups', big, eval_big,
+                                       describe='12 short rows / 16 rows of 8200 samples (array > 1 MB) x 2-D function and BycycleGroup x shared dict, '
+                                                'per-row list, thresholds one floating-point step from a data value')]
 
 
 def run_extra(tier, seed, jobs, log):
